@@ -31,6 +31,65 @@ def scope_gate(prog):
     return list(hits.values())[0]
 
 
+def context_mapper(prog):
+    """The Enforcer method that turns a context object into the
+    credentials mapping (found by the to_policy_values() call)."""
+    enf = prog.cls(POLICY + '.Enforcer')
+    for m in enf.methods.values():
+        if m.name == 'enforce':
+            continue
+        for n in ast.walk(m.node):
+            if isinstance(n, ast.Call) and isinstance(
+                    n.func, ast.Attribute) and \
+                    n.func.attr == 'to_policy_values':
+                return m
+    return None
+
+
+def enforce_inline(prog, gate, inline_gate=True):
+    """inline policy for enforce: every helper of the class / module it
+    calls, except the methods with a role of their own (loading, rule
+    checking, the context mapper, the scope gate unless asked for)."""
+    enfq = POLICY + '.Enforcer'
+    keep = {enfq + '.load_rules', enfq + '.check_rules', enfq + '.enforce',
+            enfq + '.authorize', enfq + '.set_rules', enfq + '.clear'}
+    m = context_mapper(prog)
+    if m is not None:
+        keep.add(m.qual)
+    if not inline_gate:
+        keep.add(gate.qual)
+
+    def cb(call, frame):
+        g = prog.callee_of(frame, call)
+        if g is None or g.qual in keep or g.name == '__init__':
+            return None
+        if g.module.name != POLICY:
+            return None
+        if g.cls is not None and g.cls.qual != enfq:
+            return None
+        if any(isinstance(x, (ast.Yield, ast.YieldFrom))
+               for x in ast.walk(g.node)):
+            return None
+        return g
+    return cb
+
+
+def gate_cond(t, c):
+    """Is the path condition c the verdict of the scope gate?"""
+    if c.kind != 'test':
+        return False
+    e = c.expr
+    if isinstance(e, ast.Name) and isinstance(t.en.defs.get(e.id), ast.Call):
+        e = t.en.defs[e.id]
+    if not isinstance(e, ast.Call):
+        return False
+    try:
+        g = t.prog.callee_of(t.prog.functions.get(c.frame, t.enf), e)
+    except Exception:
+        g = None
+    return g is t.gate
+
+
 def enforce_table(ctx, inline_gate=True):
     key = ('enforce_table', inline_gate)
     cache = ctx.__dict__.setdefault('_cache', {})
@@ -39,9 +98,8 @@ def enforce_table(ctx, inline_gate=True):
     prog = ctx.prog
     enf = prog.func(POLICY + '.Enforcer.enforce')
     gate = scope_gate(prog)
-    inline = inline_self_methods(prog, only={gate.qual}) if inline_gate \
-        else None
-    t = Table(prog, enf, inline=inline, max_paths=200000)
+    t = Table(prog, enf, inline=enforce_inline(prog, gate, inline_gate),
+              max_paths=200000, max_depth=4)
     t.gate = gate
     t.enf = enf
     cache[key] = t
